@@ -1,6 +1,6 @@
 rc_target("c13_uri_parse", flavour="asan")
 rc_target("c13_uri_codec", flavour="asan")
-plan("C13", [T("c13_uri_parse", 50000, 500000), T("c13_uri_codec", 50000, 500000)], min_nt=30000,
+plan("C13", [T("c13_uri_parse", 50000, 500000), T("c13_uri_codec", 50000, 500000)], min_nt=38000,
      rule="URI texts assembled from generated components and compared accessor by accessor; byte strings through both encoders, the decoder "
           "and the query iterator against reference implementations written in the harness",
      technique="property-based testing (rapidcheck), construction with remembered expectations: the harness assembles "
